@@ -296,7 +296,14 @@ func (st *runState) client(sys *System, ci int, reqs []Req) {
 		var body *bytes.Reader
 		if method == "POST" {
 			// the handlers decode with encoding/json over the generated structs (snake_case tags); connect clients send camelCase
-			body = bytes.NewReader([]byte(`{"start":946684800000,"end":946684860000,"label_selector":"{service_name=\"x\"}","labelSelector":"{service_name=\"x\"}","profile_typeID":"process_cpu:cpu:nanoseconds:cpu:nanoseconds","profileTypeID":"process_cpu:cpu:nanoseconds:cpu:nanoseconds","name":"a","matchers":["{a=\"b\"}"],"label_names":["a"],"group_by":["a"],"step":15}`))
+			startMs, endMs := int64(946684800000), int64(946684860000)
+			if ns, ok := reqTime(r.Start); ok {
+				startMs = ns / 1000000
+			}
+			if ns, ok := reqTime(r.End); ok {
+				endMs = ns / 1000000
+			}
+			body = bytes.NewReader([]byte(fmt.Sprintf(`{"start":%d,"end":%d,`, startMs, endMs) + `"label_selector":"{service_name=\"x\"}","labelSelector":"{service_name=\"x\"}","profile_typeID":"process_cpu:cpu:nanoseconds:cpu:nanoseconds","profileTypeID":"process_cpu:cpu:nanoseconds:cpu:nanoseconds","name":"a","matchers":["{a=\"b\"}"],"label_names":["a"],"group_by":["a"],"step":15}`))
 		} else {
 			body = bytes.NewReader(nil)
 		}
